@@ -8,7 +8,7 @@ undo it (git checkout -- . ; git clean of added files listed in the patch), reco
 seeded/RESULTS.json. Never leaves /repo modified (a finally block restores it)."""
 import json, os, re, subprocess, sys, time
 V = os.path.dirname(os.path.dirname(os.path.abspath(__file__)))
-R = "/repo"
+R = "/repo"   # --worktree: use a scratch worktree + VERIF_REPO instead of /repo itself (safe while others use /repo)
 
 
 def sh(cmd, cwd=None, timeout=3600):
@@ -17,7 +17,16 @@ def sh(cmd, cwd=None, timeout=3600):
 
 
 def main():
+    global R
     ids = [a for a in sys.argv[1:] if not a.startswith("--")]
+    envp = ""
+    if "--worktree" in sys.argv:
+        R = "/tmp/seedrun_wt"
+        sh("git -C /repo worktree remove --force %s" % R)
+        rc, out = sh("git -C /repo worktree add --detach %s HEAD" % R)
+        if rc != 0:
+            print(out); sys.exit(2)
+        envp = "VERIF_REPO=%s " % R
     sd = os.path.join(V, "seeded")
     if not ids:
         ids = sorted(d for d in os.listdir(sd) if os.path.isfile(os.path.join(sd, d, "patch.diff")))
@@ -42,7 +51,7 @@ def main():
             res = {}
             for pid in props:
                 t0 = time.time()
-                rc, out = sh("python3 tools/check.py %s --tier quick" % pid, cwd=V)
+                rc, out = sh(envp + "python3 tools/check.py %s --tier quick" % pid, cwd=V)
                 vio = [l for l in out.splitlines() if l.startswith("VIOLATION")]
                 res[pid] = dict(exit=rc, violation_lines=vio, wall_s=round(time.time() - t0, 1),
                                 tail=out.splitlines()[-6:])
@@ -57,6 +66,8 @@ def main():
                 if line.startswith("?? "):
                     sh("rm -rf -- '%s'" % line[3:], cwd=R)
         json.dump(results, open(resp, "w"), indent=1)
+    if envp:
+        sh("git -C /repo worktree remove --force %s" % R)
     miss = [i for i in ids if results.get(i, {}).get("status") != "caught"]
     print("seeded: %d run, %d not caught: %s" % (len(ids), len(miss), miss))
 
